@@ -56,6 +56,9 @@ PROPS = [
     (['text={r = 10"}'], {'text': 'r = 10"'}),
     (['text={"NGC 5194" core}', 'color=red'], {'text': '"NGC 5194" core', 'color': 'red'}),
     (["tag={5'}", "text={radius 5'}"], {'tags': ["5'"], 'text': "radius 5'"}),
+    # only the newline (and ';') ends a DS9 line: other separator-like characters inside a label belong to the label
+    (['text={page\x0cbreak}', 'color=red'], {'text': 'page\x0cbreak', 'color': 'red'}),
+    (['text="line\u2028sep \x85 next"', 'width=3'], {'text': 'line\u2028sep \x85 next', 'width': 3}),
     (['select=0', 'fixed=1'], {'meta': {'select': 0, 'fixed': 1}}),
     (['color=#ff8800', 'dash=1'], {'color': '#ff8800'}),
     (['font="times 12 bold"', 'fill=1', 'color=Cyan'], {'color': 'Cyan'}),
